@@ -302,7 +302,54 @@ def r10_3(ctx, rc):
 
 def r10_4(ctx, rc):
     from .c14 import r14_3
+    from .c09 import r9_6
     r14_3(ctx, rc)
+    # a parent directory created for a failed output must have an owner,
+    # or nobody removes it (R9.6)
+    r9_6(ctx, rc)
+    # "also when creating those directories itself fails part-way" is not
+    # limited to OSError (os.mkdir raises ValueError for a NUL byte in a
+    # later component): the compensating handler only hands off and
+    # re-raises, so it must not select by exception class
+    R = ctx.R
+    prog = ctx.prog
+    handoff = 'BuildDirs.error_making_dirs'
+    if handoff not in prog.funcs:
+        return
+    n = 0
+    for f in prog.funcs.values():
+        if f.cls != R.builder:
+            continue
+        for t in ast.walk(f.node):
+            if not isinstance(t, ast.Try):
+                continue
+            for h in t.handlers:
+                if not any(isinstance(c, ast.Call) and any(
+                        isinstance(g, Func) and g.qualname == handoff
+                        for g in prog.resolve_call(c, f))
+                        for st in h.body for c in ast.walk(st)):
+                    continue
+                n += 1
+                names = ['BaseException'] if h.type is None else [
+                    ast.unparse(x).split('.')[-1] for x in (
+                        h.type.elts if isinstance(h.type, ast.Tuple)
+                        else [h.type])]
+                key = 'hand-off handler in %s catches every failure' % \
+                    f.qualname
+                if set(names) & {'Exception', 'BaseException'}:
+                    rc.ok({'handler': '/'.join(names)}, key=key)
+                else:
+                    rc.violation(
+                        'handoff-handler-narrow | ' + f.qualname,
+                        'the handler that hands the already created parent '
+                        'directories off for removal catches only %s: when '
+                        'creating a later component fails in another way '
+                        '(ValueError for an embedded NUL byte) the '
+                        'directories made so far stay on disk, visible and '
+                        'unrecorded' % '/'.join(names),
+                        prog.loc(f, h), key=key)
+    if n < 1:
+        raise AnalysisError('no handler performs the hand-off ' + handoff)
 
 
 RULES = [
